@@ -72,7 +72,7 @@ def noracle(fn, n, M, z0, out):
         sc = abs(v) + abs(out[p] * i)
         if sc < 1e-9 * np.linalg.norm(st):
             return 'skip'
-        if abs(v - out[p] * i) > 1e-8 * sc * max(1.0, s[0] / s[2 * n - 2]):
+        if not abs(v - out[p] * i) <= 1e-8 * sc * max(1.0, s[0] / s[2 * n - 2]):
             return 'zi[%d] is not the impedance seen at port %d with the other ports terminated' % (p, p + 1)
     return None
 
